@@ -58,10 +58,14 @@ int compat_futex_async(int32_t *uaddr, int op, int32_t val, const struct timespe
 static NS void fl_reg(void) { if (vrt_self() >= 0) vrt_log("\"op\":\"reg\""); }
 static NS void fl_unreg(void) { if (vrt_self() >= 0) vrt_log("\"op\":\"unreg\""); }
 static NS void fl_atfork(struct urcu_atfork *a) { (void) a; }
+/* QSBR-style bracket of a library-internal read-side section (cds_lfht_is_empty(): if (!read_ongoing()) { thread_online(); read_lock(); } ...):
+ * no-ops for the abstract flavor, but logged so that the specification sees the bracket */
+static NS void fl_online(void) { if (vrt_self() >= 0) vrt_log("\"op\":\"online\""); }
+static NS void fl_offline(void) { if (vrt_self() >= 0) vrt_log("\"op\":\"offline\""); }
 static const struct rcu_flavor_struct drv_flavor = {
 	.read_lock = abs_read_lock, .read_unlock = abs_read_unlock, .read_ongoing = abs_read_ongoing,
 	.read_quiescent_state = abs_noop, .update_call_rcu = abs_call_rcu, .update_synchronize_rcu = abs_synchronize_rcu,
-	.update_defer_rcu = NULL, .thread_offline = abs_noop, .thread_online = abs_noop,
+	.update_defer_rcu = NULL, .thread_offline = fl_offline, .thread_online = fl_online,
 	.register_thread = fl_reg, .unregister_thread = fl_unreg, .barrier = abs_barrier,
 	.register_rculfhash_atfork = fl_atfork, .unregister_rculfhash_atfork = fl_atfork,
 };
